@@ -48,6 +48,23 @@ try:
         pass
     if b.branch.last_revision_info() != before:
         verdict(True, "refused pull changed the tip")
+    # push is held to the same rule: only an explicit request to overwrite *history* may move a diverged target
+    for ow in (False, [], ["tags"], {"tags"}):
+        try:
+            a.branch.push(b.branch, overwrite=ow)
+            verdict(True, "push onto a diverged target with overwrite=%r was not refused: the target's own history was dropped" % (ow,),
+                    observed=str(b.branch.last_revision_info()), expected=str(before))
+        except errors.DivergedBranches:
+            pass
+        if b.branch.last_revision_info() != before:
+            verdict(True, "refused push (overwrite=%r) changed the target tip" % (ow,))
+        try:
+            b.branch.pull(a.branch, overwrite=ow)
+            verdict(True, "pull of a diverged branch with overwrite=%r was not refused" % (ow,), observed=str(b.branch.last_revision_info()))
+        except errors.DivergedBranches:
+            pass
+        if b.branch.last_revision_info() != before:
+            verdict(True, "refused pull (overwrite=%r) changed the tip" % (ow,))
     b.branch.pull(a.branch, overwrite=True)
     if b.branch.last_revision_info() != (4, r5):
         verdict(True, "overwrite pull did not set the source tip", observed=str(b.branch.last_revision_info()))
